@@ -1,11 +1,82 @@
 import MypyVerif.Gen.CFast
+import MypyVerif.Model.FixedWidth
 /-!
-Line-protocol driver for C15 (generated definitions only — no proofs needed at run time).
+Line-protocol driver for C15 (generated definitions and model files only — no proofs needed at run time).
 
-  F <function> <word> <word> …     evaluate a generated C function (`Gen/CFast.lean`) on machine words
-                                    (unsigned decimals) → `val n` | `fast n` | `slow f neg args…` |
-                                    `raise Exc n`, then ` ub=0|1`
+  F <function> <word> …          a generated C function (`Gen/CFast.lean`) on machine words (unsigned decimals)
+                                  → `val n` | `fast n` | `slow f neg args…` | `raise Exc n`, then ` ub=0|1`
+  M cmp <op> <l> <r>             `compare_tagged` with the regenerated table row of <op>
+  M op <w> <s> <name> <a> <b>    `IntOp` on w-bit registers (s = 1 signed); name ∈ add sub mul and or xor shl shr
+  M neg|inv <w> <a>              unary minus / invert
+  M idiv|imod <w> <a> <c>        inline_fixed_width_divide / _mod
+  M u8div|u8mod <a> <b>
+  M toI64 <src> | M toNarrow <w> <s> <src> | M i64ToInt <src> | M narrowToInt <w> <s> <src>
+                                  → same result syntax (registers printed as unsigned decimals)
 -/
+open FixedWidth CSem
+
+def parseOp : String → Option Op
+  | "add" => some .add | "sub" => some .sub | "mul" => some .mul | "and" => some .and
+  | "or" => some .or | "xor" => some .xor | "shl" => some .shl | "shr" => some .shr
+  | _ => none
+
+def withWidth (w : Nat) (k : (w : Nat) → String) : String :=
+  match w with
+  | 64 => k 64 | 32 => k 32 | 16 => k 16 | 8 => k 8
+  | _ => "bad-width"
+
+def model (ws : List String) : String :=
+  match ws with
+  | ["cmp", op, l, r] =>
+    match l.toNat?, r.toNat?, CFast.intComparisonOpMapping.find? (fun row => row.1 == op) with
+    | some l, some r, some row => showResBool (compareTagged row (BitVec.ofNat 64 l) (BitVec.ofNat 64 r))
+    | _, _, _ => "bad-args"
+  | ["op", w, s, name, a, b] =>
+    match w.toNat?, parseOp name, a.toNat?, b.toNat? with
+    | some w, some op, some a, some b =>
+      withWidth w fun w => "val " ++ showBV (intOp (s == "1") op (BitVec.ofNat w a) (BitVec.ofNat w b))
+    | _, _, _, _ => "bad-args"
+  | ["neg", w, a] =>
+    match w.toNat?, a.toNat? with
+    | some w, some a => withWidth w fun w => "val " ++ showBV (neg (BitVec.ofNat w a))
+    | _, _ => "bad-args"
+  | ["inv", w, a] =>
+    match w.toNat?, a.toNat? with
+    | some w, some a => withWidth w fun w => "val " ++ showBV (invert (BitVec.ofNat w a))
+    | _, _ => "bad-args"
+  | ["idiv", w, a, c] =>
+    match w.toNat?, a.toNat?, c.toNat? with
+    | some w, some a, some c => withWidth w fun w => "val " ++ showBV (inlineDivide (BitVec.ofNat w a) (BitVec.ofNat w c))
+    | _, _, _ => "bad-args"
+  | ["imod", w, a, c] =>
+    match w.toNat?, a.toNat?, c.toNat? with
+    | some w, some a, some c => withWidth w fun w => "val " ++ showBV (inlineMod (BitVec.ofNat w a) (BitVec.ofNat w c))
+    | _, _, _ => "bad-args"
+  | ["u8div", a, b] =>
+    match a.toNat?, b.toNat? with
+    | some a, some b => showResBV (u8Divide (BitVec.ofNat 8 a) (BitVec.ofNat 8 b))
+    | _, _ => "bad-args"
+  | ["u8mod", a, b] =>
+    match a.toNat?, b.toNat? with
+    | some a, some b => showResBV (u8Mod (BitVec.ofNat 8 a) (BitVec.ofNat 8 b))
+    | _, _ => "bad-args"
+  | ["toI64", src] =>
+    match src.toNat? with
+    | some s => showResBV (intToI64 (BitVec.ofNat 64 s))
+    | none => "bad-args"
+  | ["toNarrow", w, s, src] =>
+    match w.toNat?, src.toNat? with
+    | some w, some x => withWidth w fun w => showResBV (intToNarrow w (s == "1") (BitVec.ofNat 64 x))
+    | _, _ => "bad-args"
+  | ["i64ToInt", src] =>
+    match src.toNat? with
+    | some s => showResBV (i64ToInt (BitVec.ofNat 64 s))
+    | none => "bad-args"
+  | ["narrowToInt", w, s, src] =>
+    match w.toNat?, src.toNat? with
+    | some w, some x => withWidth w fun w => "val " ++ showBV (narrowToInt (s == "1") (BitVec.ofNat w x))
+    | _, _ => "bad-args"
+  | _ => "bad-op"
 
 def step (line : String) : String :=
   let ws := (line.trimAscii.toString.splitOn " ").filter (· ≠ "")
@@ -14,6 +85,7 @@ def step (line : String) : String :=
     match args.mapM String.toNat? with
     | some ns => CFast.dispatch f ns
     | none => "bad-args"
+  | "M" :: rest => model rest ++ " ub=0"
   | _ => "bad-op"
 
 partial def loop (h : IO.FS.Stream) : IO Unit := do
